@@ -138,7 +138,7 @@ def sentinel(w):
 def run(tier, seed):
     rep = Report("C05", tier, seed, "exploration")
     if tier == "quick":
-        n, nq, layouts = 60, 25, [0, 1]
+        n, nq, layouts = 240, 25, [0, 1, 2]
     else:
         n, nq, layouts = 2500, 30, [0, 1, 2, 3, 4]
     rep.rule = ("statement sequences (setup with several INSERTs per table, DELETE WHERE p, compaction passes, generated "
